@@ -69,7 +69,7 @@ def nonideal_space(tier, seed):
         "steps": [1, 3, 6] if q else [1, 3, 6, 12],
         "x0": [4e-4] + (core.lat([0.1, 0.45], seed) if q else core.lat([0.1, 0.45, 0.8], seed)),
         "basis": ["weight", "molar"],
-        "T": [333.15, 318.15] if q else [333.15, 318.15, 351.15],
+        "T": [333.15, 318.15, 333.4] if q else [333.15, 318.15, 351.15, 333.4],  # 333.4: close to, not at, the curve temperature
     }
 
     def ok(c):
